@@ -23,6 +23,27 @@ class Eval:
         self.variants = [v["name"] for v in en["variants"]]
         self.depth = 0
 
+    def run3(self, x, env):
+        """Kleene evaluation: like run(), but a sub-expression that cannot be evaluated is `None`
+        (unknown) and `&&` / `||` / `!` / blocks with a tail expression combine three-valued."""
+        x = A.strip(x)
+        e = x.get("e")
+        if e == "bin" and x["op"] in ("&&", "||"):
+            l, r = self.run3(x["l"], env), self.run3(x["r"], env)
+            if x["op"] == "&&":
+                return False if (l is False or r is False) else (True if (l is True and r is True) else None)
+            return True if (l is True or r is True) else (False if (l is False and r is False) else None)
+        if e == "unary" and x["op"] == "!":
+            v = self.run3(x["x"], env)
+            return None if v is None else (not v)
+        if e == "block" and len(x["stmts"]) == 1 and x["stmts"][0].get("s") == "expr" and not x["stmts"][0].get("semi"):
+            return self.run3(x["stmts"][0]["x"], env)
+        try:
+            v = self.run(x, env)
+            return v if isinstance(v, bool) else None
+        except Unknown:
+            return None
+
     def variant(self, path):
         last = path.rsplit("::", 1)[-1]
         return last if last in self.variants else None
